@@ -102,12 +102,19 @@ Definition chk_target (P : pspec) (sm : sem) (k : N) (es : list effect) (t : tar
   | _ => [ClManyBursts (t_cmd t)]
   end.
 
+(** SSD16xx auto-write pattern parameter: bits 6:4 step height (8 << k rows), bits 2:0 step width (8 << k pixels),
+    bit 7 the first step's value.  The plane is filled uniformly iff one step covers the whole panel. *)
+Definition pattern_uniform (P : pspec) (v : N) : bool :=
+  (cp_H (ps_cp P) <=? N.shiftl 8 ((v / 16) mod 8)) && (cp_W (ps_cp P) <=? N.shiftl 8 (v mod 8)).
+
 (** any other plane written by the call: a complete uniform fill or a complete copy of a target image *)
 Definition chk_other (P : pspec) (sm : sem) (k : N) (ts : list target) (b : effect) : list clause :=
   match b with
   | EPattern c pl g v =>
-      (* SSD pattern fill: uniform over the window it is issued under; must be the full panel *)
-      if (g_xs g =? 0) && (g_xe g =? cp_rowbytes (ps_cp P) - 1) && (g_ys g =? 0) && (g_ye g =? cp_H (ps_cp P) - 1)
+      (* SSD pattern fill: over the window it is issued under, which must be the full panel; uniform iff one
+         pattern step covers the panel (step height 8 << v[6:4] rows, step width 8 << v[2:0] pixels) *)
+      if (g_xs g =? 0) && (g_xe g =? cp_rowbytes (ps_cp P) - 1) && (g_ys g =? 0) && (g_ye g =? cp_H (ps_cp P) - 1) &&
+         pattern_uniform P v
       then [] else [ClOtherPlane c]
   | _ =>
   match burst_cmd b with
@@ -163,7 +170,8 @@ Definition chk_c07 (P : pspec) (sm : sem) (primary : N) (fill : option N) (es : 
         (if Nat.eqb (length (filter (writes_plane c) bs)) 1 then [] else [ClManyBursts c]) ++
         match b with
         | EPattern _ _ g v =>
-            (if full_pattern P g then [] else [ClGeometry c])
+            (if full_pattern P g then [] else [ClGeometry c]) ++
+            (if pattern_uniform P v then [] else [ClNotUniform c])
             (* the fill value of a pattern is a phase bit, not a byte: only uniformity is claimed *)
         | _ =>
             (if full_geometry P b then [] else [ClGeometry c]) ++
